@@ -44,6 +44,10 @@ EXPLANATION += ' Added: (R10) the selection decision table (an explicit format i
 
 EXPLANATION += ' R8 follows the operation handed to _check_required through a local.'
 # --- end metadata round-2 twins
+# --- metadata added after the round-3 refactoring twins
+TECHNIQUE += '; evaluation of the writer for every selector value'
+EXPLANATION += ' R7: which selector values end in NotImplementedError is found by interpreting the writer (everything it calls replaced by no-ops) for every string constant it contains -- if / elif, a table or a loop. R6 follows files through functions taken from local dispatch tables (may-call resolution).'
+# --- end metadata round-3 twins
 TRUSTED = [
     "CPython ast parser", "open(name, 'w') is the only truncation point (POSIX)",
     "with-statement closes the file on every exit", "whitelisted total externals do not raise",
